@@ -27,7 +27,31 @@ pub fn u64arr_to_u128(v: [u64; 2]) -> (r: u128) ensures r == join64(v@[0], v@[1]
 // ReadFromSlice on [u8]
 pub uninterp spec fn blk(d: Seq<u8>, off: int) -> u128;      // 16 bytes at off
 pub uninterp spec fn w64(d: Seq<u8>, off: int) -> u64;       // 8 bytes at off
-pub uninterp spec fn small(d: Seq<u8>) -> (u64, u64);        // read_small of <= 8 bytes
+// little-endian value of the bytes of d in [a, b)
+pub open spec fn le_val(d: Seq<u8>, a: int, b: int) -> int
+    decreases b - a
+{
+    if b <= a { 0 } else { d[a] as int + 256 * le_val(d, a + 1, b) }
+}
+// C17 (pinned hash of short keys): `read_small` of <= 8 bytes, as the pinned release computes it:
+//   len 4..8: (first 4 bytes LE, last 4 bytes LE);  len 2..3: (first 2 bytes LE, LAST BYTE);
+//   len 1: (the byte, the byte);  len 0: (0, 0)
+pub open spec fn small(d: Seq<u8>) -> (u64, u64) {
+    let n = d.len() as int;
+    if n >= 4 { (le_val(d, 0, 4) as u64, le_val(d, n - 4, n) as u64) }
+    else if n >= 2 { (le_val(d, 0, 2) as u64, d[n - 1] as u64) }
+    else if n >= 1 { (d[0] as u64, d[0] as u64) }
+    else { (0u64, 0u64) }
+}
+// ReadFromSlice::read_u32 / read_last_u32 / read_u16 / read_last_u16 on [u8] (convert.rs: from_le_bytes of the sub-slice)
+#[verifier::external_body]
+pub fn slice_read_u32(d: &[u8]) -> (r: u32) requires d@.len() >= 4 ensures r as int == le_val(d@, 0, 4) { unimplemented!() }
+#[verifier::external_body]
+pub fn slice_read_last_u32(d: &[u8]) -> (r: u32) requires d@.len() >= 4 ensures r as int == le_val(d@, d@.len() - 4, d@.len() as int) { unimplemented!() }
+#[verifier::external_body]
+pub fn slice_read_u16(d: &[u8]) -> (r: u16) requires d@.len() >= 2 ensures r as int == le_val(d@, 0, 2) { unimplemented!() }
+#[verifier::external_body]
+pub fn slice_read_last_u16(d: &[u8]) -> (r: u16) requires d@.len() >= 2 ensures r as int == le_val(d@, d@.len() - 2, d@.len() as int) { unimplemented!() }
 #[verifier::external_body]
 pub fn read_last_u128(d: &[u8]) -> (r: u128) requires d@.len() >= 16 ensures r == blk(d@, d@.len() - 16) { unimplemented!() }
 #[verifier::external_body]
@@ -36,5 +60,3 @@ pub fn read_u128(d: &[u8]) -> (r: (u128, &[u8])) requires d@.len() >= 16 ensures
 pub fn read_u64_first(d: &[u8]) -> (r: u64) requires d@.len() >= 8 ensures r == w64(d@, 0) { unimplemented!() }
 #[verifier::external_body]
 pub fn read_last_u64(d: &[u8]) -> (r: u64) requires d@.len() >= 8 ensures r == w64(d@, d@.len() - 8) { unimplemented!() }
-#[verifier::external_body]
-pub fn read_small(d: &[u8]) -> (r: [u64; 2]) requires d@.len() <= 8 ensures (r@[0], r@[1]) == small(d@) { unimplemented!() }
